@@ -292,6 +292,22 @@ def eval_calls(run, node, tbl, rng, inp, me, api):
             # The mixture without the keyword is what the string form is compared with.
             r = (mix_by_weight if k == "W" else mix_by_volume)(*args)
             oracle_mix(run, comps, qs, r, k, inp, tbl, me)
+        # a quantity is a number: the same value as another numeric type gives the same mixture
+        import numpy as np
+        convs = [("np.float64", np.float64), ("Fraction", Fraction)]
+        if all(q == int(q) for q in qs):
+            convs += [("int", int), ("np.int64", lambda q: np.int64(int(q))), ("np.int32", lambda q: np.int32(int(q)))]
+        cname, conv = convs[rng.randrange(len(convs))]
+        args2 = [x for pair in zip(comps, [conv(q) for q in qs]) for x in pair]
+        try:
+            r2 = (mix_by_weight if k == "W" else mix_by_volume)(*args2)
+        except Exception as e:  # noqa
+            run.violation("mix_by_%s raises %s for %s quantities" % ("weight" if k == "W" else "volume",
+                                                                       type(e).__name__, cname), inp)
+        else:
+            if not same_formula(r, r2):
+                run.violation("mix_by_%s gives another mixture when the same quantities are %s"
+                              % ("weight" if k == "W" else "volume", cname), inp)
         return r
     comps, qs = [], []
     for p in node[1]:
